@@ -52,13 +52,13 @@ CHECKS["C11"] = dict(
     technique=TECH,
 )
 CHECKS["C07"] = dict(
-    text=("CBMC decides, for concrete model shapes (1-2 features, each rate variant, each network-rate variant, Sum/Mul) and ALL weights, rate parameters, "
+    text=("CBMC decides, for concrete model shapes (1-2 features, each leaf rate variant, each leaf network-rate variant, Sum/Mul) and ALL weights, rate parameters, "
           "surcharges, edge ids and previous/next states in the stated ranges, that traversal and access cost are finite and > 0 and the estimate finite and >= 0; "
           "at kernel level that one feature contributes weight x rated change (0.1 percent), exactly nothing for a zero weight or zero rate, with exact sign "
           "structure, that rate variants and lookup tables mean what is documented, and the floor / clip rules exactly."),
     design_ref="DESIGN.md section 4, C07",
     note=("Trusted: hooks H1 (table model) and H2 (CostModel::verif_from_parts), non-recursive stubs of the rate kernels at model level (assume-guarantee; "
-          "the real kernels are decided per shape). Not decided: CostModel::new, deep Combined rates, bit-exact linearity, EdgeTraversal::total_cost absorption."),
+          "the real kernels are decided per shape). Not decided: CostModel::new, Combined (nested) rates at any depth, the exact model-level composition rule, bit-exact linearity, EdgeTraversal::total_cost absorption."),
     technique=TECH,
 )
 CHECKS["C17"] = dict(
@@ -113,10 +113,10 @@ CHECKS["C08"] = dict(
 )
 CHECKS["C14"] = dict(
     text=("Kernels: the cell lookup returns a cell containing the target for every strictly increasing axis of length 2-4; 1-D strategies return the table value at grid points and a "
-          "neighbour between them; points outside the grid or of the wrong dimension are rejected without panic; the speed/grade model's predict never fails for ANY finite speed and "
-          "grade (inputs are snapped to the grid boundary)."),
+          "neighbour between them; the 2-D interpolator returns the table value exactly at every grid point of a pinned 3 x 3 grid with symbolic values; points outside the grid or of "
+          "the wrong dimension are rejected without panic; the speed/grade model's predict never fails for ANY finite speed and grade (inputs are snapped to the grid boundary)."),
     design_ref="DESIGN.md section 4, C14",
-    note="NOT decided: the blend arithmetic (value within corner range, exactness at 2-D/3-D grid points and for multilinear data, continuity), N-D, bundled models. Trusted: hook H2 constructor.",
+    note="NOT decided: the blend arithmetic in general (corner range for arbitrary points, 3-D grid points, multilinear exactness, continuity), N-D, bundled models. Trusted: hook H2 constructor.",
     technique=TECH,
 )
 CHECKS["C15"] = dict(
